@@ -242,6 +242,17 @@ def run(ck):
         "exceptions inside a locked region come only from raise statements and from the mutating operations marked "
         "`may raise`; the exemption tables of Props/Monitor.lean (docs/monitor.md) list every write that need not "
         "notify, every wait that is not in a while loop and every plain notify (accepted for at most one waiter)")
+    ck.assumptions.append(
+        "monitor discipline, hypothesis `Single` of dlc_no_lost_wakeup / tco_no_lost_wakeup: at most one application "
+        "thread per socket and direction (at most one thread waits on a condition that the link thread wakes with a "
+        "plain notify(): recv_ready, send_ready, send_token); llc.py needs no such hypothesis (llc_single_trivial)")
+    ck.notes.append(
+        "monitor: with TWO application threads on one socket three interleavings on the real tco.py are documented "
+        "observations, not findings (no message lost or duplicated, nothing blocks beyond link termination): "
+        "(A) a second receiver makes a woken recv() return None/EPIPE on a live connection, (B) poll('recv') + recv(): "
+        "notify() wakes the poller, the receiver stays blocked with a message queued, (C) two senders on a closed "
+        "window: one acknowledgement for two PDUs wakes one; replay: harness/translate_mon_selftest.py --only witness "
+        "(docs/monitor.md section 7)")
     n_wait = sum(1 for p, _ in progs.values() for s in p.sites if s[2] == "wait")
     n_other = sum(len(p.others) for p, _ in progs.values())
     ck.notes.append("monitor: %d methods translated, %d wait sites, %d untranslatable statements" % (
